@@ -43,6 +43,7 @@ DEFAULT_PROFILE = {
     "policies": ["FIRST_AVAILABLE", "FIRST_AVAILABLE", "ROUND_ROBIN", "RANDOM", "const", "callable", "generator"],
     "pack": 2,            # out of 10 factories are pack/unpack lines
     "split_fanin": 2,     # out of 10 pack lines with a splitter: a second pallet source feeds the splitter directly
+    "two_stage": 2,       # out of 10 pack lines: two combiners in series (the second receives loaded pallets)
     "max_layers": 2,
     "setup": True,
     "finite": 5,          # out of 10 factories have finite input
@@ -276,6 +277,24 @@ def decode_pack(g, p):
     for s in ings:
         edges.append(edge_spec(g, p, "E%d" % ne, s["id"], "C0", in_kinds))
         ne += 1
+    last = "C0"
+    if p.get("two_stage") and g.n(10) < p["two_stage"]:
+        # two combiners in series: the second one receives *loaded* pallets on its pallet edge and adds its own ingredients
+        n2 = g.pick([1, 1, 2])
+        ing2 = [source_spec(g, p, "T%d" % i) for i in range(n2)]
+        nodes.extend(ing2)
+        recipe2 = [1] + [g.pick([1, 1, 2, 0]) for _ in range(n2)]
+        if all(q == 0 for q in recipe2[1:]):
+            recipe2[1] = 1
+        nodes.append({"id": "C1", "type": "Combiner", "setup": g.pick([0, 0, 1]) if p["setup"] else 0,
+                      "blocking": True if not p["nonblocking"] else g.chance(3, 4),
+                      "delay": delay_spec(g, p["zero_delays"]), "recipe": recipe2, "out_sel": None})
+        edges.append(edge_spec(g, p, "E%d" % ne, "C0", "C1", ["Buffer"]))
+        ne += 1
+        for s_ in ing2:
+            edges.append(edge_spec(g, p, "E%d" % ne, s_["id"], "C1", in_kinds))
+            ne += 1
+        last = "C1"
     with_split = g.chance(3, 4)
     n_mid = g.pick([1, 1, 2])
     if with_split:
@@ -287,7 +306,7 @@ def decode_pack(g, p):
             spl["split_quantity"] = sq
         nodes.append(spl)
         for i in range(n_mid):
-            edges.append(edge_spec(g, p, "E%d" % ne, "C0", "X0", ["Buffer"]))
+            edges.append(edge_spec(g, p, "E%d" % ne, last, "X0", ["Buffer"]))
             ne += 1
         n_snk = g.pick([1, 2, 2, 3])
         for i in range(n_snk):
@@ -301,7 +320,7 @@ def decode_pack(g, p):
             e2 = edge_spec(g, p, "E%d" % ne, "P1", "X0", ["Buffer"])
             ne += 1
             if g.chance(1, 2):
-                pos = next(i for i, e in enumerate(edges) if e["src"] == "C0" and e["dst"] == "X0")
+                pos = next(i for i, e in enumerate(edges) if e["src"] == last and e["dst"] == "X0")
                 edges.insert(pos, e2)
             else:
                 edges.append(e2)
@@ -309,7 +328,7 @@ def decode_pack(g, p):
         n_snk = g.pick([1, 2])
         for i in range(n_snk):
             nodes.append({"id": "K%d" % i, "type": "Sink", "setup": 0})
-            edges.append(edge_spec(g, p, "E%d" % ne, "C0", "K%d" % i, ["Buffer"]))
+            edges.append(edge_spec(g, p, "E%d" % ne, last, "K%d" % i, ["Buffer"]))
             ne += 1
     return {"nodes": nodes, "edges": edges, "shape": "pack"}
 
